@@ -52,6 +52,11 @@ def make_cache(idx, hit, log, variant, expect):
         pass
 
     c = Cache()
+    box = {"log": log, "expect": expect}
+
+    def rebind(newlog, newexpect):
+        box["log"], box["expect"] = newlog, newexpect
+    c.rebind = rebind
 
     def mk(name):
         ns = {}
@@ -63,7 +68,7 @@ def make_cache(idx, hit, log, variant, expect):
                 bound = binder(*a, **k)
             except TypeError:
                 bound = None
-            same = bound is not None and all(bound.get(n) is v for n, v in expect.items())
+            same = bound is not None and all(bound.get(n) is v for n, v in box["expect"].items())
             if name in READ1:
                 val = HIT1[variant % len(HIT1)]() if hit else None
                 h = val is not None
@@ -74,7 +79,7 @@ def make_cache(idx, hit, log, variant, expect):
                 val = True if hit else False
                 h = hit
             c.answers.append(val)
-            log.append({"e": "consult", "i": idx, "m": name, "a": "same-args" if same else "changed-args", "hit": h})
+            box["log"].append({"e": "consult", "i": idx, "m": name, "a": "same-args" if same else "changed-args", "hit": h})
             return val
         return method
 
@@ -85,7 +90,19 @@ def make_cache(idx, hit, log, variant, expect):
     return c
 
 
-def execute(FallbackClient, n, hits, op, variant):
+def execute_seq(FallbackClient, n, hits, ops, variant):
+    """several operations one after the other on the SAME FallbackClient (it must stay stateless)"""
+    log = []
+    caches = None
+    fc = None
+    for oi, op in enumerate(ops):
+        part = execute(FallbackClient, n, hits, op, variant + oi, reuse=(fc, caches))
+        fc, caches = part["fc"], part["caches"]
+        log += part["ev"]
+    return {"h": {"n": n}, "ev": log, "variant": variant, "op": "+".join(ops), "hits": hits}
+
+
+def execute(FallbackClient, n, hits, op, variant, reuse=(None, None)):
     log = []
     names = CALLER[op]
     nreq = REQUIRED[op]
@@ -93,9 +110,21 @@ def execute(FallbackClient, n, hits, op, variant):
     nopt = (variant // 2) % (len(names) - nreq + 1)
     by_kw = variant % 2 == 1
     vals = {nm: object() for nm in names[: nreq + nopt]}
+    if "key" in vals and reuse[0] is not None and getattr(reuse[0], "_verif_key", None) is not None:
+        vals["key"] = reuse[0]._verif_key          # the operations of one sequence address the same key
     expect = dict(vals)
-    caches = [make_cache(i + 1, hits[i], log, variant + i, expect) for i in range(n)]
-    fc = FallbackClient(caches)
+    fc, caches = reuse
+    if fc is None:
+        caches = [make_cache(i + 1, hits[i], log, variant + i, expect) for i in range(n)]
+        fc = FallbackClient(caches)
+    else:
+        for c in caches:
+            c.rebind(log, expect)
+    if "key" in vals:
+        try:
+            fc._verif_key = vals["key"]
+        except Exception:
+            pass
     kind = "read1" if op in READ1 else "readN" if op in READN else "write"
     log.insert(0, {"e": "begin", "op": op, "kind": kind})
     pos = [vals[nm] for nm in names[:nreq]]
@@ -111,7 +140,7 @@ def execute(FallbackClient, n, hits, op, variant):
                     e["e"] == "consult" and e["i"] == i + 1 and e["hit"] for e in log):
                 src = i + 1
     log.append({"e": "ret", "src": src})
-    return {"h": {"n": n}, "ev": log, "variant": variant, "op": op, "hits": hits}
+    return {"h": {"n": n}, "ev": log, "variant": variant, "op": op, "hits": hits, "fc": fc, "caches": caches}
 
 
 FIELDS = {"begin": ("e", "op", "kind"), "consult": ("e", "i", "m", "a", "hit"), "ret": ("e", "src")}
@@ -130,21 +159,27 @@ def main(tier, rep):
                       "as-coded model of fallback.py violates the contract", tlc.first_error_trace(r))
     rep.set("states", r.distinct)
     rep.set("transitions", r.generated)
-    beh = r.exported("EXP")
-    if not any(b["hist"][-1]["src"] > 1 for b in beh) or not any(b["op"] == "set" for b in beh):
+    beh = r.json_lines("EXP")
+    for b in beh:
+        b["ops"] = [e["op"] for e in b["hist"] if e["e"] == "begin"]
+    if not any(b["hist"][-1].get("src", 0) > 1 for b in beh) or not any("set" in b["ops"] for b in beh):
         raise common.MachineryError("vacuous export")
     rep.set("behaviours_exported", len(beh))
-    nvar = 4 if tier == "quick" else 24
+    nvar = 1 if tier == "quick" else 6
+    if tier == "quick":
+        import random
+        random.Random(common.seed()).shuffle(beh)
+        beh = beh[: 6000]
     traces = []
     distinct = set()
     for bi, b in enumerate(beh):
         hits = [bool(x) for x in b["hit"]]
         for v in range(nvar):
-            t = execute(FallbackClient, b["n"], hits, b["op"], v + (common.seed() % 7))
+            t = execute_seq(FallbackClient, b["n"], hits, b["ops"], v + bi + (common.seed() % 7))
             t["expected"] = b["hist"]
             traces.append(t)
-        if b["n"] > 1 or b["op"] not in READ1 | READN:
-            distinct.add((b["n"], tuple(hits), b["op"]))
+        if b["n"] > 1 or any(o not in READ1 | READN for o in b["ops"]):
+            distinct.add((b["n"], tuple(hits), tuple(b["ops"])))
     acc, rej, st, _ = tlc.validate_traces("FallbackTrace", [{"h": t["h"], "ev": t["ev"]} for t in traces])
     rep.set("traces_validated_against_impl", len(traces))
     rep.set("trace_states", st)
@@ -160,8 +195,10 @@ def main(tier, rep):
             rep.model_drift("execution differs from as-coded model", {"events": t["ev"], "model": t["expected"]})
     rep.set("evaluations", len(traces))
     rep.set("distinct_nontrivial", len(distinct))
-    rep.set("rule", "every (number of caches 1..4, hit/miss assignment, operation) enumerated by TLC x argument-spelling / "
-                    "hit-value variants; non-trivial = more than one cache or a mutating operation; distinct by (n, assignment, op)")
+    rep.set("rule", "every (number of caches 1..4, hit/miss assignment, PAIR of operations issued on the same object) enumerated by TLC "
+                    "(quick: a seeded sample of 6000) x argument-spelling / hit-value variants; non-trivial = more than one cache or a mutating "
+                    "operation; distinct by (n, assignment, ops)")
+    rep.set("exhaustive", tier == "thorough")
     rep.set("exhaustive", True)
     for t in traces[len(traces) // 3: len(traces) // 3 + 2]:
         rep.sample({"op": t["op"], "hits": t["hits"], "events": t["ev"]})
